@@ -1010,7 +1010,7 @@ package goatlang
 //@   ensures as(result.value, *funcT).VariadicType == TypeNil
 //@
 //@ func call
-//@   property C09 C07
+//@   property C09 C07 C19
 //@   requires v != nil && wfFunc(ft) && len(v.stack) >= xArgs && xArgs >= 0 && xRets >= 0 && validStack(v)
 //@   modifies *
 //@   ensures#delta len(v.stack) == old(len(v.stack)) - old(xArgs) + xRets
@@ -1020,6 +1020,8 @@ package goatlang
 //@   callsite#fixed callReady: forall j int :: 0 <= j && j < old(len(v.stack)) - (old(xArgs) - ft.Args + 1) ==> v.stack[j] == old(v.stack[j])
 //@   callsite#packedlen callReady: ft.Variadic ==> len(v.stack) == old(len(v.stack)) - (old(xArgs) - ft.Args + 1) + 1 && arg_xArgs == ft.Args
 //@   callsite#packedtype callReady: ft.Variadic ==> is(top(v, 0).value, *sliceT) && as(top(v, 0).value, *sliceT).valueType == ft.VariadicType.value() && top(v, 0).t == sliceType(ft.VariadicType.value())
+//@   -- the packed arguments live in an array of their own: no two invocations share them
+//@   callsite#ownargs @C19 @C09 NewSlice: len(arg_data) == 0 || isfresh(arr(arg_data))
 //@   callsite#packedorder @C09 @C04 callReady: ft.Variadic ==> len(as(top(v, 0).value, *sliceT).data) == old(xArgs) - ft.Args + 1 && (forall j int :: 0 <= j && j < old(xArgs) - ft.Args + 1 ==> as(top(v, 0).value, *sliceT).data[j] == old(v.stack[len(v.stack) - (xArgs - ft.Args + 1) + j]).assign(ft.VariadicType.value()))
 
 // ---------------------------------------------------------------------------------------------
@@ -1314,8 +1316,10 @@ package goatlang
 //@   ensures#frame keepsExcept(v, len(v.stack), baseN + int(old(ins(v)).A))
 //@   ensures#next v.frame.N == old(v.frame.N) + int(old(ins(v)).B)
 //@ func (*VM).exec case codeCopy
-//@   property C07 C11
+//@   property C07 C11 C13
 //@   requires need(v, 2) && valid(top(v, 0))
+//@   -- a string source is copied as its bytes: it goes through convert(TypeSlice) first
+//@   ensures#bytes @C13 old(top(v, 0)).t.base() != TypeSlice ==> calls("(Value).convert") == 1
 //@   ensures#delta len(v.stack) == old(len(v.stack)) - 2
 //@   ensures#moved is(old(top(v, 1)).value, *sliceT) && is(old(top(v, 0)).value, *sliceT) && old(top(v, 0)).t.base() == TypeSlice ==> (forall p int :: 0 <= p && p < len(as(old(top(v, 1)).value, *sliceT).data) && p < len(as(old(top(v, 0)).value, *sliceT).data) ==> as(old(top(v, 1)).value, *sliceT).data[p] == old(as(top(v, 0).value, *sliceT).data[p]))
 //@   ensures#next stays(v)
@@ -1619,6 +1623,8 @@ package goatlang
 //@   nopanic
 //@   ensures#tree @C03 isnil(result1) ==> result0 != nil
 //@   assume @def:first first != nil && (first.Symbol == "package" ==> len(first.Tokens) >= 1 && first.Tokens[0] != nil)
+//@   -- the search starts under vendor/ for every import path, also a one-element one
+//@   assert#vendorfirst @C15 @def:parts len(parts) >= 2 && parts[0] == "vendor"
 //@   callsite#fsnonnil @C03 io/fs.Glob: !isnil(arg_0)
 //@   assert#notests @2 (forall j int :: 0 <= j && j < len(matches) ==> !strings.HasSuffix(matches[j], "_test.go"))
 //@ func rawLoadPackage loop 0
@@ -1919,6 +1925,7 @@ package goatlang
 //@   ensures#existing old(haskey(l.keyToIndex, key)) ==> result == old(l.keyToIndex[key]) && len(l.data) == old(len(l.data)) && haskey(l.keyToIndex, key) && l.keyToIndex[key] == result && l.cap == old(l.cap)
 //@   ensures#fresh !old(haskey(l.keyToIndex, key)) ==> result == old(len(l.data)) && len(l.data) == old(len(l.data)) + 1 && haskey(l.keyToIndex, key) && l.keyToIndex[key] == result && l.indexToKey[result] == key
 //@   ensures#others forall k2 string :: k2 != key ==> haskey(l.keyToIndex, k2) == old(haskey(l.keyToIndex, k2)) && l.keyToIndex[k2] == old(l.keyToIndex[k2])
+//@   ensures#arr arr(l.data) == old(arr(l.data)) || isfresh(arr(l.data))
 //@   ensures#stable l.keyToIndex == old(l.keyToIndex) && len(l.indexToKey) == len(l.data) && l.cap >= len(l.data) && l.cap >= old(l.cap)
 //@
 //@ ghost chain(a string, k string) bool
@@ -2233,8 +2240,12 @@ package goatlang
 //@   requires m != nil && m.data != nil
 //@   allocates elems(string)
 //@   callsite#bounded (Value).safeStr: arg_v.t.isSafeStr()
+//@   callsite#keytype (Value).String: arg_v.t == m.keyType
 //@ func (*numericMap).SafeStr loop 0
 //@   invariant m != nil && (cap(p) == 0 || isfresh(arr(p)))
+//@   -- each key is rendered as a Value of the map's key type (bool keys as true/false, large
+//@   -- integer keys without exponent), once per rendered element
+//@   invariant#keys calls("(Value).String") == calls("(Value).safeStr")
 //@ func (*structT).SafeStr
 //@   property C14
 //@   requires s != nil && s.Lookup != nil && rh(s.Fields)
@@ -2945,6 +2956,30 @@ package goatlang
 //@ func returnNud loop 0
 //@   invariant p != nil && t != nil
 //@   invariant#bare !stopsReturn(old(p.Token.Symbol)) || (calls("(*parser).Expression") == 0 && p.Token != nil && p.Token.Symbol == old(p.Token.Symbol))
+//@ -- every entry of an import group, whatever its alias (also `_`), lands in the import node as
+//@ -- an (alias, path) pair: the loader discovers dependencies from these pairs
+//@ func appendAlias
+//@   property C15
+//@   trusted
+//@   modifies *
+//@ func importNud
+//@   property C15
+//@   requires p != nil && t != nil && p.Token != nil
+//@   modifies *
+//@   ensures#pairs old(p.Token.Symbol) == "(" ==> calls("(*parser).Advance") == calls("(*token).Append") + 2
+//@ func importNud loop 0
+//@   invariant p != nil && t != nil
+//@   invariant#pairs calls("(*parser).Advance") == calls("(*token).Append") + 1 && calls("appendAlias") >= 0
+//@ -- the call node carries the position at which the argument list opens (the token after "("):
+//@ -- that is the line a backtrace entry and a faulting CALL name, also when the list wraps
+//@ func callLed
+//@   property C20
+//@   requires p != nil && p.Token != nil
+//@   modifies *
+//@   assert#pos @def:call call != nil && call.Pos == old(p.Token.Pos)
+//@   ensures#node result == call
+//@ func callLed loop 0
+//@   invariant p != nil && call != nil && arguments != nil
 //@ func assignResize
 //@   property C07 C09
 //@   modifies H$token
@@ -3006,6 +3041,19 @@ package goatlang
 // resolves to the global slot interned under the *export-prefixed* key: the same key under which
 // the declaration cases (function, :=, var, type) intern it, whether or not it has been seen yet.
 // ---------------------------------------------------------------------------------------------
+//@ -- a string constant lives in the globals slot keyed by the literal's source text (two spellings
+//@ -- of different byte sequences never share a slot)
+//@ func (*lookup).Set
+//@   property C08 C13
+//@   requires wfL(l)
+//@   modifies fields(l) elems(l.data) elems(l.indexToKey) M$Str$Int$dom M$Str$Int$val M$Str$Int$card
+//@   allocates elems(Value) elems(string)
+//@   ensures#stored wfL(l) && haskey(l.keyToIndex, key) && l.data[l.keyToIndex[key]] == v
+//@ func (*compiler).compile case "(string)"
+//@   property C13
+//@   requires wfC(c) && tok != nil
+//@   callsite#key (*lookup).Set: arg_key == tok.Text
+//@   ensures#const len(res) == 1 && res[0].Code == codeConst && haskey(c.Globals.keyToIndex, tok.Text) && int(res[0].A) == c.Globals.keyToIndex[tok.Text]
 //@ func (*compiler).compile case "(name)"
 //@   property C16 C08
 //@   requires wfC(c) && tok != nil
